@@ -588,7 +588,14 @@ class NetCDFRead(IORead):
             flat_nc.set_fill_off()
 
             # Flatten the file
-            netcdf_flatten(nc, flat_nc, strict=False, omit_data=True)
+            try:
+                netcdf_flatten(nc, flat_nc, strict=False, omit_data=True)
+            except Exception:
+                # Close everything that has been opened
+                flat_nc.close()
+                flat_file.close()
+                nc.close()
+                raise
 
             # Store the original grouped file. This is primarily
             # because the unlimited dimensions in the flattened
